@@ -234,6 +234,8 @@ Lemma inv_set_conn b s l i tx av : rinvN b s -> rinvN b (set_conn s l i tx av).
 Proof. intros [A B C D E F G]. split; auto. Qed.
 Lemma inv_set_reports b s cr ev n : rinvN b s -> rinvN b (set_reports s cr ev n).
 Proof. intros [A B C D E F G]. split; auto. Qed.
+Lemma inv_set_closing b s c : rinvN b s -> rinvN b (set_closing s c).
+Proof. intros [A B C D E F G]. split; auto. Qed.
 Lemma inv_close_err b s err : rinvN b s -> rinvN b (close_err s err).
 Proof. intros H. unfold close_err. now apply inv_set_reports, inv_set_waiters, inv_set_status. Qed.
 
@@ -249,7 +251,7 @@ Proof.
     + destruct o; try apply Hex.
       * cbn [fst]. destruct (Hex (Results rs)) as [A B].
         split; rewrite fold_on_result_u; [exact A | now apply inv_fold_on_result].
-      * cbn [fst]. destruct (Hex Flush) as [A B]. split; [exact A | now apply inv_set_status].
+      * cbn [fst]. destruct (Hex Flush) as [A B]. split; [exact A | now apply inv_set_closing, inv_set_status].
     + destruct o; try apply Hex; try exact Hi.
       cbn [fst]. destruct (Hex (Results rs)) as [A B].
       split; rewrite fold_on_result_u; [exact A | now apply inv_fold_on_result].
@@ -257,8 +259,12 @@ Proof.
     + destruct o; exact Hi.
     + destruct o; exact Hi.
   - (* ECloseEnd *)
-    destruct (z_status s); try exact Hi. destruct (z_link s); cbn [fst]; try apply Hce.
-    split; [exact Hu | now apply inv_set_reports, inv_set_waiters, inv_set_status].
+    assert (Hcl : forall err, rinv (set_closing (close_err s err) false))
+      by (intro; split; [exact Hu | now apply inv_set_closing, inv_close_err]).
+    destruct (z_closing s); [|exact Hi].
+    destruct (z_status s); try (destruct (z_link s)); cbn [fst]; try apply Hcl;
+      try (split; [exact Hu | now apply inv_set_closing]);
+      (split; [exact Hu | now apply inv_set_closing, inv_set_reports, inv_set_waiters, inv_set_status]).
   - (* EAckTimeout *)
     assert (Hx : rinv (fst (if mem seq (z_waiters s) then (waiter_removes s seq 1, 0) else (s, 0)))).
     { destruct (mem seq (z_waiters s)); cbn [fst]; [|exact Hi].
@@ -342,7 +348,7 @@ Proof.
   destruct e as [o| |seq|silent| | |r|seq]; cbn [rstep]; try discriminate Hc.
   - destruct (z_status s); destruct o; cbn [fst]; try apply Hex; try exact H0;
       try (apply only0_fold_result; apply Hex).
-  - destruct (z_status s); try exact H0. destruct (z_link s); exact H0.
+  - destruct (z_closing s); [|exact H0]. destruct (z_status s); try (destruct (z_link s)); exact H0.
   - destruct (z_link s); exact H0.
   - destruct (z_status s); try exact H0; destruct (z_link s); try exact H0; cbn [fst]; exact (Hex Tick).
   - destruct (z_link s); exact H0.
@@ -406,7 +412,7 @@ Proof.
   destruct e as [o| |seq|silent| | |r|seq]; cbn [rstep uop_of].
   - destruct (z_status s); destruct o; cbn [fst]; try (split; reflexivity);
       split; rewrite ?fold_on_result_u, ?fold_on_result_cut; reflexivity.
-  - destruct (z_status s); try (split; reflexivity). destruct (z_link s); split; reflexivity.
+  - destruct (z_closing s); [|split; reflexivity]. destruct (z_status s); try (destruct (z_link s)); split; reflexivity.
   - destruct (z_status s); try (split; reflexivity); destruct (mem seq (z_waiters s)); split; reflexivity.
   - destruct (z_link s); split; reflexivity.
   - destruct (z_status s); try (split; reflexivity); destruct (z_link s); split; reflexivity.
@@ -521,7 +527,7 @@ Lemma closed_step cfg s e : is_closed (z_status s) = true ->
   uop_of s e = None /\ z_status (fst (rstep cfg s e)) = z_status s /\ z_closereqs (fst (rstep cfg s e)) = z_closereqs s.
 Proof.
   intros Hc. destruct e as [o| |seq|silent| | |r|seq]; cbn [rstep uop_of];
-    destruct (z_status s) eqn:Es; try discriminate Hc; try (destruct o); try (destruct (z_link s)); cbn; rewrite ?Es; repeat split.
+    destruct (z_status s) eqn:Es; try discriminate Hc; try (destruct o); try (destruct (z_closing s)); try (destruct (z_link s)); cbn; rewrite ?Es; repeat split.
 Qed.
 
 (* an open stream: the close requests grow only by the current totals, and then the stream is closed *)
@@ -535,8 +541,9 @@ Proof.
   destruct e as [o| |seq|silent| | |r|seq]; cbn [rstep uop_of].
   - destruct (z_status s); try discriminate Ho; destruct o; cbn [fst]; left; try apply Hex; try reflexivity;
       try (rewrite (proj1 (proj2 (proj2 (proj2 (proj2 (ctl_fold_result rs _)))))); apply Hex).
-  - destruct (z_status s); try discriminate Ho; try (left; reflexivity).
-    destruct (z_link s); [right; repeat split | left; reflexivity | left; reflexivity].
+  - destruct (z_closing s); [|left; reflexivity].
+    destruct (z_status s); try discriminate Ho; try (left; reflexivity);
+      (destruct (z_link s); [right; repeat split | left; reflexivity | left; reflexivity]).
   - destruct (z_status s); try discriminate Ho; try (left; reflexivity); destruct (mem seq (z_waiters s)); left; reflexivity.
   - destruct (z_link s); left; reflexivity.
   - destruct (z_status s); try discriminate Ho; try (left; reflexivity); destruct (z_link s); left; try reflexivity;
@@ -699,6 +706,8 @@ Lemma tinv_set_waiters s w : tinv s -> tinv (set_waiters s w).
 Proof. intros [T1 T2]. split; [exact T1 | exact T2]. Qed.
 Lemma tinv_set_reports s cr ev n : tinv s -> tinv (set_reports s cr ev n).
 Proof. intros [T1 T2]. split; [exact T1 | exact T2]. Qed.
+Lemma tinv_set_closing s c : tinv s -> tinv (set_closing s c).
+Proof. intros [T1 T2]. split; [exact T1 | exact T2]. Qed.
 Lemma tinv_close_err s err : tinv s -> tinv (close_err s err).
 Proof. intros H. unfold close_err. now apply tinv_set_reports, tinv_set_waiters, tinv_set_status. Qed.
 
@@ -709,9 +718,11 @@ Proof.
   pose proof Hi as [T1 T2].
   destruct e as [o| |seq|silent| | |r|seq]; cbn [rstep].
   - destruct (z_status s); destruct o; cbn [fst]; try apply Hex; try exact Hi;
-      try (apply tinv_fold_result; apply Hex); try (apply tinv_set_status; apply Hex); try (now apply tinv_close_err).
-  - destruct (z_status s); try exact Hi. destruct (z_link s); cbn [fst]; try (now apply tinv_close_err).
-    now apply tinv_set_reports, tinv_set_waiters, tinv_set_status.
+      try (apply tinv_fold_result; apply Hex); try (apply tinv_set_closing, tinv_set_status; apply Hex); try (now apply tinv_close_err).
+  - destruct (z_closing s); [|exact Hi].
+    destruct (z_status s); try (destruct (z_link s)); cbn [fst]; try (now apply tinv_set_closing, tinv_close_err);
+      try (now apply tinv_set_closing);
+      now apply tinv_set_closing, tinv_set_reports, tinv_set_waiters, tinv_set_status.
   - destruct (z_status s); try exact Hi; destruct (mem seq (z_waiters s)); try exact Hi; cbn [fst]; now apply tinv_waiter_removes.
   - destruct (z_link s) eqn:El; cbn [fst]; (split; [cbn; try (destruct silent; discriminate); congruence | exact T2]).
   - (* EDetect: the stream's link is down and stays down *)
